@@ -309,6 +309,12 @@ func (c *Ctx) checkWriters(rule string, field *types.Var, allowed fnSet, min int
 		if o != nil && !allowed[o] {
 			if host := c.helperOf(rootFn(w.Fn), allowed, 0); host != nil {
 				by[host] = append(by[host], w)
+				// a helper shared by several call sites stands for that many writes (de-duplicated code)
+				if ho := funcObj(rootFn(w.Fn)); ho != nil {
+					if k := len(c.P.CallSites(ho)); k > 1 {
+						n += k - 1
+					}
+				}
 				c.OK(rule, fmt.Sprintf("writer-of:%s@%s", name, funcName(rootFn(w.Fn))), c.P.InstrPos(w.Instr),
 					fmt.Sprintf("%s of field %s in %s, a private helper called only from the allowed writer %s", w.Kind, name, funcName(rootFn(w.Fn)), host.Name()))
 				continue
